@@ -177,8 +177,8 @@ Lemma fold_value_agrees T X : wf_ity T -> result_bound T X ->
 Proof.
   intros HT. unfold result_bound, promote_type_for_value, wrap_value, bwrap.
   ity_cases T HT; cbv [promote_signed_types promote_unsigned_types first_fit]; ity_norm; intros HX;
-    repeat match goal with |- context [if ?c then _ else _] => destruct c eqn:? end;
-    ity_norm; repeat split; try reflexivity; try lia; try (intros; lia); try (intros; left; lia); try (intros; right; lia).
+    repeat (match goal with |- context [if ?c then _ else _] => destruct c eqn:? end; try (exfalso; lia));
+    ity_norm; repeat split; intros; first [reflexivity | lia | (left; lia) | (right; lia)].
 Qed.
 
 Lemma arith_result_bound o T a b e : wf_ity T -> (o = Badd \/ o = Bsub \/ o = Bmul) ->
